@@ -236,11 +236,19 @@ func runSysScenario(c *Ctx, fixed bool, kind string) (term string, desc map[stri
 	// error; the block fails its checksum after the read succeeded (the handle is fine, the bytes are not)
 	var injected atomic.Int64
 	corruptAt := int64(-1)
-	if !dedicated && c.chance(0.25) {
+	filterCorrupt := false // the damaged read lies in a block filter section (a parse failure of one block), not in row data
+	if !dedicated && c.chance(0.3) {
 		corruptAt = int64(c.intn(6))
-		faultDesc = append(faultDesc, fmt.Sprintf("rowdata-bitflip#%d", corruptAt))
+		if c.chance(0.4) {
+			filterCorrupt = true
+			corruptAt = int64(c.intn(3))
+			faultDesc = append(faultDesc, fmt.Sprintf("filter-bitflip#%d", corruptAt))
+		} else {
+			faultDesc = append(faultDesc, fmt.Sprintf("rowdata-bitflip#%d", corruptAt))
+		}
 	}
 	var rowReadCtr atomic.Int64
+	var filterHit atomic.Bool
 	qCorruptActive.Store(corruptAt >= 0)
 	w.store.corrupt = nil
 	if corruptAt >= 0 {
@@ -251,6 +259,18 @@ func runSysScenario(c *Ctx, fixed bool, kind string) (term string, desc map[stri
 			}
 			for i := range f.blocks {
 				b := &f.blocks[i].meta
+				if filterCorrupt {
+					// a chunk read of the block filter region: the flipped byte (the middle of what was read) lies in
+					// whichever section is there; the read itself succeeds
+					if b.BloomFilterSize > 0 && off >= int64(b.BloomFilterOffset) && off < int64(b.BloomFilterOffset+b.BloomFilterSize) {
+						if rowReadCtr.Add(1)-1 == corruptAt {
+							filterHit.Store(true)
+							return true
+						}
+						return false
+					}
+					continue
+				}
 				if b.HasRowDataHash && off >= int64(b.RowDataOffset) && off+int64(n) <= int64(b.RowDataOffset+b.RowDataSize) {
 					if rowReadCtr.Add(1)-1 == corruptAt {
 						injected.Add(1)
@@ -856,13 +876,13 @@ func runSysScenario(c *Ctx, fixed bool, kind string) (term string, desc map[stri
 		}
 		// C20: nobody ended the query from outside, so its context was live whenever a store call failed: every
 		// injected failure is a recorded failure and Err reports them all
-		if nq == 1 && !q.cancelled.Load() && !asked && sc.iterAt < 0 && injected.Load() > 0 && (f.err.kind != "join" || int64(len(f.err.ids)) != injected.Load()) {
+		if nq == 1 && !q.cancelled.Load() && !asked && sc.iterAt < 0 && injected.Load() > 0 && !filterHit.Load() && (f.err.kind != "join" || int64(len(f.err.ids)) != injected.Load()) {
 			c.violation("q-err-dropped", fmt.Sprintf("query %d: %d store calls failed (%s) while the query's context was live, Err = %s %s", q.idx, injected.Load(), sc.faults, f.err.kind, f.err.text), info)
 		}
 		if q.lateCancel {
 			c.dist("sys_latecancel", fmt.Sprintf("%s/err=%s", q.plan.ctxKind, f.err.kind))
 		}
-		if !q.cancelled.Load() && !asked && injected.Load() == 0 && sc.iterAt < 0 && f.err.kind != "nil" {
+		if !q.cancelled.Load() && !asked && injected.Load() == 0 && !filterHit.Load() && sc.iterAt < 0 && f.err.kind != "nil" {
 			c.violation("q-err-spurious", fmt.Sprintf("query %d: Err = %s although nothing failed and nobody cancelled", q.idx, f.err.text), info)
 		}
 		if f.err.kind == "other" {
@@ -936,7 +956,7 @@ func runSysScenario(c *Ctx, fixed bool, kind string) (term string, desc map[stri
 				}
 			}
 		}
-		if (q.plan.mode == "drain" || q.plan.mode == "slow") && injected.Load() == 0 && sc.iterAt < 0 && !q.cancelled.Load() {
+		if (q.plan.mode == "drain" || q.plan.mode == "slow") && injected.Load() == 0 && !filterHit.Load() && sc.iterAt < 0 && !q.cancelled.Load() {
 			// undisturbed: exactly the matching rows of the blocks the prefilter keeps, each once
 			want := map[int64]int{}
 			for fi := range w.files {
@@ -1121,7 +1141,7 @@ func classifyEngineErr(err error) terr {
 	}
 	var ids []int64
 	for i, e := range j.Unwrap() {
-		if !errors.Is(e, errInjected) && !(qCorruptActive.Load() && strings.Contains(e.Error(), "hash mismatch")) {
+		if !errors.Is(e, errInjected) && !(qCorruptActive.Load() && strings.Contains(e.Error(), "hash")) {
 			return terr{kind: "other", text: "joined error does not wrap an injected fault: " + e.Error()}
 		}
 		ids = append(ids, int64(i))
